@@ -24,8 +24,8 @@ NEG = {
     "finalization_context_kept": "let mut keep = None; a.finish_marking().unwrap().finalize(|fc, _| { keep = Some(fc); }); let _k = keep;",
 }
 POS = {
-    "finalize_once_then_new_token": "a.finish_marking().unwrap().finalize(|_, _| ()); a.finish_marking().unwrap().start_sweeping(); a.finish_cycle();",
-    "mark_debt_token": "if let Some(m) = a.mark_debt() { m.finalize(|_, _| ()); } a.finish_cycle();",
+    "finalize_once_then_new_token": "{ let mut m = a.finish_marking().unwrap(); m.finalize(|_, _| ()); } a.finish_marking().unwrap().start_sweeping(); a.finish_cycle();",
+    "mark_debt_token": "if let Some(mut m) = a.mark_debt() { m.finalize(|_, _| ()); } a.finish_cycle();",
 }
 
 
